@@ -348,14 +348,28 @@ func init() {
 		n, acc := 0, 0
 		classes := map[string]int{}
 		var samples []any
+		var heldMsg *jt808.JTMessage
+		var heldBody []byte
+		var heldPhone string
+		var heldID int
+		var heldCase c02Case
 		err := readND(a[0], func(i int, raw []byte) error {
 			var c c02Case
 			if err := jsonUnmarshal(raw, &c); err != nil {
 				return err
 			}
 			n++
-			got, _ := decodeView(c.F)
+			got, gm := decodeView(c.F)
 			cls := c.Kind + map[bool]string{true: " accepted", false: " rejected"}[c.D.Ok]
+			// a message that was decoded stays what it was while later frames are decoded
+			if heldMsg != nil && (!bytes.Equal(heldMsg.Body, heldBody) || heldMsg.Header.TerminalPhoneNo != heldPhone || int(heldMsg.Header.ID) != heldID) {
+				out.put(mismatch{"decoded-message-changed-by-a-later-decode " + c.Kind,
+					fmt.Sprintf("body was %x is %x, phone was %s is %s", heldBody, heldMsg.Body, heldPhone, heldMsg.Header.TerminalPhoneNo), []c02Case{heldCase, c}})
+				heldMsg = nil
+			}
+			if got.Ok && gm != nil && gm.Header != nil && i%3 != 2 {
+				heldMsg, heldBody, heldPhone, heldID, heldCase = gm, append([]byte{}, gm.Body...), gm.Header.TerminalPhoneNo, int(gm.Header.ID), c
+			}
 			classes[cls]++
 			if c.D.Ok {
 				acc++
